@@ -235,3 +235,42 @@ def cfg_reach_under(cfg, atom, starts=None):
                 continue
             stack.append(m)
     return seen
+
+
+def local_names(fnode):
+    """names bound inside the function: parameters (except the receiver) and every stored / loop / except name."""
+    a = fnode.args
+    params = [x.arg for x in a.posonlyargs + a.args + a.kwonlyargs]
+    if a.vararg:
+        params.append(a.vararg.arg)
+    if a.kwarg:
+        params.append(a.kwarg.arg)
+    out = set(params[1:] if params and params[0] in ('self', 'cls') else params)
+    for n in ast.walk(fnode):
+        if isinstance(n, ast.Name) and isinstance(n.ctx, (ast.Store, ast.Del)):
+            out.add(n.id)
+        elif isinstance(n, ast.ExceptHandler) and n.name:
+            out.add(n.name)
+        elif isinstance(n, ast.arg) and n.arg not in ('self', 'cls'):
+            out.add(n.arg)
+    return out
+
+
+def anon_text(node, fnode, limit=None):
+    """structural text of `node` with every local variable of the enclosing function written as `_`: identifies a
+    construct independently of how the locals are called (used for finding keys)."""
+    loc = local_names(fnode)
+    changed = []
+    for n in ast.walk(node):
+        if isinstance(n, ast.Name) and n.id in loc:
+            changed.append((n, n.id))
+            n.id = '_'
+    try:
+        try:
+            t = ast.unparse(node)
+        except Exception:
+            t = ast.dump(node)
+    finally:
+        for n, old in changed:
+            n.id = old
+    return t if limit is None else t[:limit]
